@@ -145,7 +145,8 @@ Proof. exact eb_encode_ct_trav_premises. Qed.
 Print Assumptions C09_ebenc_trav_premises.
 
 (** ** (3c) Round trip.
-    FULL statements wanted (none proved; each is the executable check [eb_roundtrip_b] evaluated by the driver on every
+    FULL statements (NOW PROVED, in Properties_EBSIM.v: C01_ebsim_roundtrip(_ct), and composed with TRAV down to bytes in
+    C01_eb_connectivity_stream_roundtrip; when this file was written none was proved; each is the executable check [eb_roundtrip_b] evaluated by the driver on every
     generated mesh, with the checker sound by C01_ebenc_iso_checker_sound):
       C01_ebenc_roundtrip_no_split :  eb_encode_ct t = EOk o -> ~ In TOPOLOGY_S (o_syms o) ->
           exists n s, eb_decode_of o rm = Edgebreaker.Ok (n, s) /\ eb_iso (ct_c2v t) (ct_opp t) (o_pcc o) (c2v s) (copp s)
